@@ -9,7 +9,7 @@ RULE = ("a degenerate stream built from every boundary the statement names (zero
         "summing to 0, to a negative number, to NaN, overflowing to infinity; dash offsets negative, huge, infinite, NaN; "
         "singular transforms; alpha and layer opacity outside [0,1], infinite, NaN; empty, inverted, oversize and far-away clip "
         "rectangles; source rectangles and destinations up to 2^29 away; device geometry up to +-4000 px; 1x1 images and masks; "
-        "single-stop gradients, stop positions outside [0,1]) mixed into ordinary random scenes and path-utility calls, run "
+        "single-stop gradients, stop positions outside [0,1]; flat curves whose extreme lies on the path's bounds) mixed into ordinary random scenes and path-utility calls, run "
         "with overflow checks and debug assertions on under catch_unwind and a per-case watchdog; every call must return "
         "(the model predicts Ok for each of them, see the theorems); non-trivial = case containing at least one degenerate value")
 KNOWN_NONSEP = ("blend modes Hue/Saturation/Color/Luminosity: arithmetic overflow panic in sw_composite::blend::lum (a negative i32 "
@@ -138,6 +138,18 @@ def deg_scene(rng, cid):
     return "scene %d %d %d I %s ; %s" % (cid, W, H, " ".join(map(gen.hexpx, px)), " ; ".join(ops))
 
 
+def hull_scene(rng, cid):
+    """flat curves whose extreme lies exactly on the path's bounds, filled or used as a clip, both antialias modes:
+    every sample-row crossing must stay inside the coverage mask"""
+    W, H = rng.randrange(2, 15), rng.randrange(2, 9)
+    path = scene.path_tokens(scene.hull_curve_path(rng, W, H), rng.randrange(2))
+    if rng.random() < 0.2:
+        ops = ["clippath " + path, "fillrect %d %d %d %d solid ff102030 3 %d 1" % (FB(0.0), FB(0.0), FB(float(W)), FB(float(H)), FB(1.0)), "popclip"]
+    else:
+        ops = ["fill %s solid ffffffff 3 %d %d" % (path, FB(1.0), rng.randrange(2))]
+    return "scene %d %d %d I %s ; %s" % (cid, W, H, " ".join(["00000000"] * (W * H)), " ; ".join(ops))
+
+
 def path_cases(rng, n, base):
     lines = []
     for i in range(n):
@@ -217,7 +229,8 @@ def run(ctx):
         ctx.violation("path-died", str(e), "the implementation aborted on a path utility case")
     ctx.cov["path_utility_cases"] = len(plines)
     nd = 1200 if ctx.tier == "quick" else 25000
-    extra = lambda c_, base: [deg_scene(ctx.rng, base + j) for j in range(nd)]
+    nh = 400 if ctx.tier == "quick" else 8000
+    extra = lambda c_, base: [deg_scene(ctx.rng, base + j) for j in range(nd)] + [hull_scene(ctx.rng, base + nd + j) for j in range(nh)]
     cfg = dict(nops=8, maxdim=10, init="random")
     return _scene.run_property(ctx, cfg, 800, 15000, RULE, concrete, ASSUME, post=post, extra_lines=extra,
                                nontrivial=lambda sr, i: i >= 800 or True)
